@@ -180,8 +180,10 @@ impl MessageBufReader {
     }
 
     pub fn is_empty(&self) -> bool {
-        if self.start >= self.buf.len() {
-            true
+        if self.start >= self.end {
+            // every fed byte has been consumed: the next byte is not known yet,
+            // so the stream cannot be said to have reached its zero terminator
+            false
         } else {
             self.buf[self.start] == 0
         }
